@@ -39,6 +39,43 @@ DT_IMPORT = "from datetime import date, datetime, time, timedelta, timezone"
 DT_TYVARS = ["TZ", "DT", "TIME", "TD"]
 DT_TYPES = {"TZ": "TZ", "DT": "DT", "TIME": "TIME", "TD": "TD"}
 
+# parameter groups shared by several specs (a generated definition that calls another passes them on)
+NORM_PARAMS = [("tz_utc", "TZ"), ("time_min", "TIME"), ("dv_is_datetime", "DV -> bool"),
+               ("dv_tzinfo", "DV -> option TZ"), ("dv_combine", "DV -> TIME -> TZ -> DV"),
+               ("dv_replace_tzinfo", "DV -> TZ -> DV"), ("dv_astimezone", "DV -> TZ -> DV")]
+ALLDAY_PARAMS = [("tz_utc", "TZ"), ("zoneinfo", "TZNAME -> TZ"),
+                 ("gev_start", "EVT -> DV"), ("gev_end", "EVT -> DV"), ("gev_timezone", "EVT -> option TZNAME"),
+                 ("extract_datetime", "DV -> DV"), ("dv_is_date", "DV -> bool"), ("dv_is_datetime", "DV -> bool"),
+                 ("dv_has_date_attr", "DV -> bool"), ("dv_date_attr", "DV -> ATTR"),
+                 ("attr_is_none", "ATTR -> bool"), ("attr_callable", "ATTR -> bool"),
+                 ("dv_tzinfo", "DV -> option TZ"), ("dv_astimezone", "DV -> TZ -> DV"),
+                 ("dv_replace_tzinfo", "DV -> TZ -> DV"), ("dv_time", "DV -> TIME"), ("time_min", "TIME"),
+                 ("time_neb", "TIME -> TIME -> bool"), ("dv_sub", "DV -> DV -> TD"), ("td_days", "TD -> Z"),
+                 ("td_of_days", "Z -> TD"), ("td_of_hours", "Z -> TD"), ("td_sub", "TD -> TD -> TD"),
+                 ("td_leb", "TD -> TD -> bool")]
+
+def _merge_params(*groups):
+    out = []
+    for g in groups:
+        for n, t in g:
+            if (n, t) not in out:
+                assert n not in [x for x, _ in out], n
+                out.append((n, t))
+    return out
+
+
+FWD_TYVARS = ["TZ", "TZNAME", "DV", "TIME", "TD", "ATTR", "EVT", "DT", "ID", "RID", "SUM", "DESC", "REMS", "CID", "CSUM",
+              "AEV"]
+FWD_PARAMS = _merge_params(
+    ALLDAY_PARAMS, NORM_PARAMS,
+    [("dv_combine", "DV -> TIME -> TZ -> DV"), ("dv_replace_us", "DV -> Z -> DV"), ("dv_timestamp", "DV -> Z"),
+     ("dv_is_none", "DV -> bool"), ("tzname_utc", "TZNAME"), ("dt_fromtimestamp", "Z -> TZ -> DT"),
+     ("get_events", "option DT -> option DT -> list EVT"),
+     ("gev_id", "EVT -> option ID"), ("gev_summary", "EVT -> option SUM"), ("gev_description", "EVT -> option DESC"),
+     ("gev_recurring_event_id", "EVT -> option RID"), ("extract_reminders", "EVT -> REMS"),
+     ("mk_event", "option ID -> CID -> CSUM -> option SUM -> option DESC -> option RID -> bool -> REMS -> Z -> Z -> AEV"),
+     ("self_calendar_id", "CID"), ("self_calendar_summary", "CSUM"), ("self_calendar_timezone", "O:TZ")])
+
 SPECS_GCSA = [
     # ---- _infer_is_all_day
     dict(name="g_gcsa_infer_is_all_day", file=GCSA, func="_infer_is_all_day", kind="expr", ret="B", gx=True,
@@ -88,4 +125,84 @@ SPECS_GCSA = [
          calls={"_parse_exdates_from_rrule": ("parse_exdates_from_rrule", ["RR"], "PARSED")},
          patterns=[("'EXDATE:' + ','.join(_1)", "(mk_exdate_part {0})", ["L:EXD"], "PART"),
                    ("f'{_1};{_2}'", "(rr_snoc {0} {1})", ["RR", "PART"], "RR")]),
+    # ---- _normalize_datetime, _to_timestamp (R7).  A date / datetime / None value is one abstract type DV
+    # ("what e.start can be"); the source re-assigns `dt` from a date to a datetime, so both live in DV.
+    dict(name="g_gcsa_normalize_datetime", file=GCSA, func="_normalize_datetime", kind="expr", ret="DV", gx=True,
+         file_has=[DT_IMPORT], tyvars=["TZ", "DV", "TIME"], types={"TZ": "TZ", "DV": "DV", "TIME": "TIME"},
+         truthy=["TZ"],
+         params=NORM_PARAMS + [("dt", "DV"), ("zone", "O:TZ")],
+         text_exprs={"timezone.utc": ("tz_utc", "TZ"), "time.min": ("time_min", "TIME")},
+         patterns=[("isinstance(_1, datetime)", "(dv_is_datetime {0})", ["DV"], "B")],
+         calls={"datetime.combine": dict(coq="dv_combine", args=["DV", "TIME"], kw=[("tzinfo", "TZ")], ret="DV")},
+         attrs={("DV", "tzinfo"): ("dv_tzinfo", "O:TZ")},
+         methods={("DV", "replace"): dict(coq="dv_replace_tzinfo", args=[], kw=[("tzinfo", "TZ")], ret="DV"),
+                  ("DV", "astimezone"): dict(coq="dv_astimezone", args=["TZ"], ret="DV")}),
+    dict(name="g_gcsa_to_timestamp", file=GCSA, func="_to_timestamp", kind="expr", ret="Z", gx=True,
+         file_has=[DT_IMPORT], tyvars=["TZ", "DV", "TIME"], types={"TZ": "TZ", "DV": "DV", "TIME": "TIME"},
+         params=NORM_PARAMS + [("dv_replace_us", "DV -> Z -> DV"), ("dv_timestamp", "DV -> Z"),
+                               ("dt", "DV"), ("zone", "O:TZ")],
+         calls={"_normalize_datetime": dict(coq="g_gcsa_normalize_datetime", pre=[n for n, _ in NORM_PARAMS],
+                                            args=["DV", "O:TZ"], ret="DV")},
+         methods={("DV", "replace"): dict(coq="dv_replace_us", args=[], kw=[("microsecond", "Z")], ret="DV"),
+                  ("DV", "timestamp"): dict(coq="dv_timestamp", args=[], ret="Z")}),
+    # ---- _is_all_day_event (R8)
+    dict(name="g_gcsa_is_all_day_event", file=GCSA, func="_is_all_day_event", kind="expr", ret="B", gx=True,
+         file_has=[DT_IMPORT, "from zoneinfo import ZoneInfo"],
+         tyvars=["TZ", "TZNAME", "DV", "TIME", "TD", "ATTR", "EVT"],
+         types={"TZ": "TZ", "TZNAME": "TZNAME", "DV": "DV", "TIME": "TIME", "TD": "TD", "ATTR": "ATTR", "EVT": "EVT"},
+         truthy=["TZ", "TZNAME"],
+         params=ALLDAY_PARAMS + [("gcsa_event", "EVT")],
+         text_exprs={"timezone.utc": ("tz_utc", "TZ"), "time.min": ("time_min", "TIME")},
+         patterns=[("hasattr(_1, 'start')", "true", ["EVT"], "B"), ("hasattr(_1, 'end')", "true", ["EVT"], "B"),
+                   ("hasattr(_1, 'timezone')", "true", ["EVT"], "B"),
+                   ("isinstance(_1, date)", "(dv_is_date {0})", ["DV"], "B"),
+                   ("isinstance(_1, datetime)", "(dv_is_datetime {0})", ["DV"], "B"),
+                   ("hasattr(_1, 'date')", "(dv_has_date_attr {0})", ["DV"], "B"),
+                   ("getattr(_1, 'date', None)", "(dv_date_attr {0})", ["DV"], "ATTR"),
+                   ("_1 is not None", "(negb (attr_is_none {0}))", ["ATTR"], "B"),
+                   ("callable(_1)", "(attr_callable {0})", ["ATTR"], "B")],
+         calls={"_extract_datetime": ("extract_datetime", ["DV"], "DV"),
+                "ZoneInfo": ("zoneinfo", ["TZNAME"], "TZ"),
+                "timedelta": [dict(coq="td_of_days", args=[], kw=[("days", "Z")], ret="TD"),
+                              dict(coq="td_of_hours", args=[], kw=[("hours", "Z")], ret="TD")]},
+         attrs={("EVT", "start"): ("gev_start", "DV"), ("EVT", "end"): ("gev_end", "DV"),
+                ("EVT", "timezone"): ("gev_timezone", "O:TZNAME"),
+                ("DV", "tzinfo"): ("dv_tzinfo", "O:TZ"), ("TD", "days"): ("td_days", "Z")},
+         methods={("DV", "astimezone"): dict(coq="dv_astimezone", args=["TZ"], ret="DV"),
+                  ("DV", "replace"): dict(coq="dv_replace_tzinfo", args=[], kw=[("tzinfo", "TZ")], ret="DV"),
+                  ("DV", "time"): dict(coq="dv_time", args=[], ret="TIME")},
+         binops={("DV", "-", "DV"): ("dv_sub", "TD"), ("TD", "-", "TD"): ("td_sub", "TD")},
+         cmpops={("TIME", "!=", "TIME"): "time_neb", ("TD", "<=", "TD"): "td_leb"}),
+    # ---- Calendar._fetch_forward: the per-event conversion loop (R9)
+    dict(name="g_gcsa_fetch_forward", file=GCSA, cls="Calendar", func="_fetch_forward", kind="gen", gx=True,
+         file_has=[DT_IMPORT, "from zoneinfo import ZoneInfo", "_UTC_TIMEZONE = 'UTC'"],
+         tyvars=FWD_TYVARS, types={k: k for k in FWD_TYVARS},
+         truthy=["TZ", "TZNAME"], out_type="AEV", yield_type="AEV",
+         params=FWD_PARAMS + [("start", "OZ"), ("end", "OZ")],
+         selfattrs={"calendar_id": ("self_calendar_id", "CID"), "calendar_summary": ("self_calendar_summary", "CSUM"),
+                    "_calendar_timezone": ("self_calendar_timezone", "O:TZ")},
+         text_exprs={"ZoneInfo(_UTC_TIMEZONE)": ("(zoneinfo tzname_utc)", "TZ")},
+         patterns=[("_1 is None", "(dv_is_none {0})", ["DV"], "B"),
+                   ("getattr(_1, 'recurring_event_id', None)", "(gev_recurring_event_id {0})", ["EVT"], "O:RID")],
+         calls={"_timestamp_to_datetime": dict(coq="g_gcsa_ts_to_dt", pre=["tz_utc", "dt_fromtimestamp"], args=["Z"],
+                                               ret="DT"),
+                "self.calendar.get_events": dict(coq="get_events", args=[], kw=[("time_min", "O:DT"), ("time_max", "O:DT")],
+                                                 fixed={"single_events": "True", "order_by": "'startTime'",
+                                                        "calendar_id": "self.calendar_id"}, ret="L:EVT"),
+                "ZoneInfo": ("zoneinfo", ["TZNAME"], "TZ"),
+                "_is_all_day_event": dict(coq="g_gcsa_is_all_day_event", pre=[n for n, _ in ALLDAY_PARAMS],
+                                          args=["EVT"], ret="B"),
+                "_extract_reminders": ("extract_reminders", ["EVT"], "REMS"),
+                "_extract_datetime": ("extract_datetime", ["DV"], "DV"),
+                "_to_timestamp": dict(coq="g_gcsa_to_timestamp",
+                                      pre=[n for n, _ in NORM_PARAMS] + ["dv_replace_us", "dv_timestamp"],
+                                      args=["DV", "O:TZ"], ret="Z"),
+                "Event": dict(coq="mk_event", args=[],
+                              kw=[("id", "O:ID"), ("calendar_id", "CID"), ("calendar_summary", "CSUM"),
+                                  ("summary", "O:SUM"), ("description", "O:DESC"), ("recurring_event_id", "O:RID"),
+                                  ("is_all_day", "B"), ("reminders", "REMS"), ("start", "Z"), ("end", "Z")],
+                              ret="AEV")},
+         attrs={("EVT", "start"): ("gev_start", "DV"), ("EVT", "end"): ("gev_end", "DV"),
+                ("EVT", "timezone"): ("gev_timezone", "O:TZNAME"), ("EVT", "id"): ("gev_id", "O:ID"),
+                ("EVT", "summary"): ("gev_summary", "O:SUM"), ("EVT", "description"): ("gev_description", "O:DESC")}),
 ]
